@@ -242,6 +242,7 @@ type concEv struct {
 	gate  string
 	ret   bool
 	ok    bool
+	mark  int
 	req   client.InFlightRequest
 	err   error
 	panik string
@@ -349,6 +350,7 @@ func runConcWalk(p concParams, g *concGraph, walk []int, names []string) (res co
 			gid := goroutineID()
 			concRegistry.Store(gid, th)
 			defer concRegistry.Delete(gid)
+			mine := map[int]client.InFlightRequest{} // operation number -> the request that send returned
 			for k, op := range prog {
 				<-th.resume
 				var ev concEv
@@ -363,6 +365,22 @@ func runConcWalk(p concParams, g *concGraph, walk []int, names []string) (res co
 						f := frame.NewFrame(primitive.ProtocolVersion4, int16(op.Id), &message.Query{Query: "SELECT " + th.name + strconv.Itoa(k+1)})
 						req, err := h.Enqueue(f)
 						ev = concEv{ret: true, ok: err == nil, req: req, err: err}
+						if err == nil {
+							mine[k+1] = req
+						}
+					case "recv":
+						ev = concEv{ret: true}
+						if req := mine[op.Id]; req != nil {
+							select {
+							case f, ok := <-req.Incoming():
+								if ok {
+									frameMu.Lock()
+									ev.ok, ev.mark = true, frameMark[f]
+									frameMu.Unlock()
+								}
+							default:
+							}
+						}
 					case "deliver":
 						f := responseFrame(int16(op.Id), op.Last, k)
 						frameMu.Lock()
@@ -399,6 +417,9 @@ func runConcWalk(p concParams, g *concGraph, walk []int, names []string) (res co
 			l.Rid = int(ev.req.StreamId())
 			acc = append(acc, accepted{th.name, ip[th.name], ev.req})
 		}
+		if op.Op == "recv" && ev.ok {
+			l.Rid = ev.mark
+		}
 		res.lines = append(res.lines, l)
 	}
 	call := func(th *concThread) {
@@ -419,6 +440,8 @@ func runConcWalk(p concParams, g *concGraph, walk []int, names []string) (res co
 			l.Op, l.Mark = "D", concMark(tidx[th.name], k+1)
 		case "close":
 			l.Op = "C"
+		case "recv":
+			l.Op = "R"
 		}
 		res.lines = append(res.lines, l)
 	}
